@@ -687,6 +687,42 @@ def check_foreign(ctx, d, pgpy, suite, case, plain, orig):
         except Exception as ex:
             ctx.fail(suite, 'locked foreign key: sign raised %r instead of refusing' % ex, case)
             ok = False
+        # re-protection of the foreign form under a new passphrase (PGPy always writes usage 254 + iterated S2K, so the secret part
+        # changes size: salt / count octets appear, a 2-octet checksum becomes a 20-octet hash): the export must be a well-formed key
+        # that the independent reader and PGPy open with the NEW passphrase only
+        from pgpy.constants import SymmetricKeyAlgorithm as SA, HashAlgorithm as HA
+        same_block = [a for a in CIPHERS if BLOCK[a] == BLOCK[case['cipher']]]
+        na = {0: case['cipher'], 1: same_block[(case['hash'] + case['count']) % len(same_block)], 2: CIPHERS[(case['hash'] + case['usage']) % len(CIPHERS)]}[(case['spec'] + case['usage'] + case['count']) % 3]
+        newpw = 'new passphrase for the foreign key'
+        rcase = dict(case, reprotect_cipher=na)
+        try:
+            with key.unlock(pw):
+                key.protect(newpw, SA(na), HA.SHA256)
+            blob2 = bytes(key)
+        except Exception as ex:
+            ctx.fail(suite, 're-protecting an unlocked foreign key raised %r' % ex, rcase)
+            return False
+        got = parse_read(d.call('readkey', hx(blob2), hx(pw_octets(newpw))))
+        rec = [p_['mpis'] if p_['kind'] == 'P' and p_.get('res') == 'OK' else None for p_ in got]
+        if rec != orig:
+            ctx.fail(suite, 'independent reader does not recover the secret integers from a re-protected foreign key',
+                     dict(rcase, reader=[p_['kind'] + ':' + str(p_.get('res', p_.get('code'))) for p_ in got], blob=blob2.hex()[:6000]))
+            ok = False
+        if any(p_['kind'] == 'P' and p_.get('res') == 'OK' for p_ in parse_read(d.call('readkey', hx(blob2), hx(pw_octets(pw))))) and pw_octets(pw) != pw_octets(newpw):
+            ctx.fail(suite, 're-protected foreign key still opens with the OLD passphrase', rcase)
+            ok = False
+        try:
+            k2 = pgpy.PGPKey.from_blob(blob2)[0]
+            with k2.unlock(newpw):
+                if [secret_ints(pk) for pk in pkts(k2)] != orig:
+                    ctx.fail(suite, 're-imported re-protected foreign key unlocks to different secret integers', rcase)
+                    ok = False
+            if bytes(k2) != blob2:
+                ctx.fail(suite, 're-protected foreign key is not re-exported octet for octet', rcase)
+                ok = False
+        except Exception as ex:
+            ctx.fail(suite, 'PGPy cannot re-import / unlock its own re-protected export of a foreign key: %r' % ex, dict(rcase, blob=blob2.hex()[:6000]))
+            ok = False
     return ok
 
 
